@@ -50,8 +50,17 @@ def run(algo, NA, ops, exact=True, seed=0, shared=True, eq_lr=False):
         other = float(str(same)) if eq_lr == "value" else same
         assert eq_lr != "value" or (other is not same and other == same)
         lrkw = dict(lr_actor=same, lr_critic=(other if eq_lr else 2.0 ** -7)) if algo in ("DDPG", "TD3", "MADDPG", "MATD3") else dict(lr=2.0 ** -8)
-        lrkw["gamma"] = 0.75
-    pop = [zoo.make_agent(algo, "vector", seed=seed + i, index=i, hp=(hp if shared else mk(algo)), **lrkw) for i in range(NA)]
+        # a float-configured hyperparameter may be held as a Python int (gamma=1): populations with their own configuration
+        # objects start like that
+        lrkw["gamma"] = 0.75 if shared else 1
+    def _mk(i):
+        try:
+            return zoo.make_agent(algo, "vector", seed=seed + i, index=i, hp=(hp if shared else mk(algo)), **lrkw)
+        except AssertionError:
+            if isinstance(lrkw.get("gamma"), int):          # this algorithm insists on a float gamma
+                return zoo.make_agent(algo, "vector", seed=seed + i, index=i, hp=(hp if shared else mk(algo)), **dict(lrkw, gamma=1.0))
+            raise
+    pop = [_mk(i) for i in range(NA)]
     names = list(pop[0].registry.hp_config.names())
     def intended(opt_name):
         """which learning-rate hyperparameter an optimizer is meant to use (by its attribute name)"""
